@@ -68,6 +68,12 @@ def gen_ops():
     # is fixed by that set, not by a set loaded later
     add("run_use_lib_a", 'probe(1)\nuse("lib.p")\nprobe(kl)', pt=STD_PT, extra={"lib.p": 'add_key(kl, "A")'})
     add("run_use_lib_b", 'probe(1)\nuse("lib.p")\nprobe(kl)', pt=STD_PT, extra={"lib.p": 'add_key(kl, "B")\nadd_key(extra, 1)'})
+    # arguments that differ from an earlier run's only in letter case (a zone name that exists / one that does not as spelled; two
+    # regular expressions): what a run does with its own argument does not depend on what an earlier run was given
+    add("run_zone_name", 'add_key(ts, "2021-03-04 05:06:07")\ndefault_time(ts, "Asia/Tokyo")\nprobe(ts)', pt=STD_PT)
+    add("run_zone_name_lower", 'add_key(ts, "2021-03-04 05:06:07")\ndefault_time(ts, "asia/tokyo")\nprobe(ts)', pt=STD_PT)
+    add("run_replace_upper", 'replace(fs, "S+", "X")\nprobe(fs)', pt=STD_PT)
+    add("run_replace_lower", 'replace(fs, "s+", "X")\nprobe(fs)', pt=STD_PT)
     # reads every name an earlier script assigned (they must all be the point's keys or nil here)
     add("run_ok", 'probe(r, x, k, c, kb, nf, t2, lvl, l, w, q, i, v, ev, cv, z, zz, y1)\nadd_key(r, "second")\nprobe(fi, fs, tg, fb, message, _)', pt=STD_PT)
     return ops
